@@ -563,7 +563,7 @@ def explore(tier, seed, rng, wd):
             sub = [i for i in insts if is_directed(units[i["u"]]) or (i["u"] + H.REPS.index(i["rep"]) + seed) % stride == 0]
         cwd = os.path.join(wd, tag)
         os.makedirs(cwd, exist_ok=True)
-        cfiles = files if stride == 1 else H.write_harness(cwd, units, sub, periods)
+        cfiles = files if stride == 1 else H.write_harness(cwd, units, sub, periods, nchunks=(3 if stride == 0 else 8))
         tb = time.time()
         exe, err = build_harness(cwd if stride != 1 else wd, cfiles, compiler, std, tag, opt, san=(stride != 0))
         return tag, sub, exe, err, round(time.time() - tb, 1)
